@@ -673,6 +673,9 @@ class RecipeGen:
         body = []
         for j in list(forced) + [b for a, b in getattr(self, "group_edges", []) if a == k]:
             self.force_call(sc, j, body, False)
+        if self.ntypes and r.random() < 0.4:
+            # a user-defined NamedTuple value made inside the body (its class need not occur in any signature)
+            self._make_abi(sc, r.choice(sorted(self.ntypes)), body, False)
         n = r.randrange(1, self.f["max_body"] + 1)
         fault = s.get("fault")
         fpos = r.randrange(0, n + 1) if fault else None
@@ -1133,7 +1136,7 @@ def gen_plan(seed: int, cfg: dict) -> dict:
     # source-map gate phases
     if sm_run:
         # usually on from the start; sometimes switched on only after some programs were built
-        first_on = 0 if (r.random() < 0.6 or len(merged) < 4) else r.randrange(1, len(merged))
+        first_on = 0 if (r.random() < 0.5 or len(merged) < 4) else r.randrange(len(merged) // 3, len(merged))
         merged.insert(first_on, {"op": "gate", "feature": "sourcemap_enabled", "value": True})
         if r.random() < 0.3:
             merged.insert(first_on + 1, {"op": "gate", "feature": "sourcemap_debug", "value": True})
